@@ -81,3 +81,32 @@ Example C10_nonvacuous :
   = inr (map (fun ab => [(3%positive, VInt 0); (2%positive, VInt (fst ab)); (1%positive, VInt (snd ab))])
              [(7, 1); (7, 2); (8, 1); (8, 2); (9, 1); (9, 2)]%Z).
 Proof. vm_compute. reflexivity. Qed.
+
+(* ---- items whose node mutates a signature default (fix e86f9d3: every item resolves and copies its own defaults) ---- *)
+From HG Require Import Isolation IsolationProofs MapIsolation.
+
+(* any interleaving of the items: no pre-existing object (the defaults among them) changes, every body sees pristine contents *)
+Theorem C10_items_isolated : forall sched h0 rs h' rs' tr,
+  (forall r, In r rs -> is_item r) ->
+  own_defaults_only sched rs ->
+  (forall i n p l, In (i, n) sched -> dget (m_defaults n) p = Some (MRef l) -> l < length h0) ->
+  exec_sched h0 rs sched = (h', rs', tr) ->
+  (forall l, l < length h0 -> cell_of h' l = cell_of h0 l) /\
+  (forall st, In st tr ->
+     c_before (s_call st) = map (fun p => deref h0 (snd (source (s_node st) (s_before st) p))) (m_inputs (s_node st))).
+Proof. exact map_items_isolated. Qed.
+Print Assumptions C10_items_isolated.
+
+(* the hypotheses are met by three items over body(x, acc=[]) ... *)
+Theorem C10_items_example :
+  (forall r, In r [item 1; item 2; item 3] -> is_item r) /\
+  own_defaults_only [(0, body); (1, body); (2, body)]%nat [item 1; item 2; item 3].
+Proof. exact items_example_meets_hypotheses. Qed.
+Print Assumptions C10_items_example.
+
+(* ... and one copy of the default handed to every item (the behaviour before the fix) is refuted: item k sees k-1 appends *)
+Theorem C10_shared_default_refuted :
+  let '(h', rs', tr) := exec_sched [[]; []] [legacy_item 1; legacy_item 2; legacy_item 3] [(0, body); (1, body); (2, body)]%nat in
+  map (fun st => c_after (s_call st)) tr = [[[1]; [7]]; [[2]; [7; 7]]; [[3]; [7; 7; 7]]]%Z.
+Proof. exact legacy_items_share_one_copy_refuted. Qed.
+Print Assumptions C10_shared_default_refuted.
